@@ -425,6 +425,10 @@ func allocated() uint64 {
 	return allocSample[0].Value.Uint64()
 }
 
+// arena is the read buffer damaged inputs are delivered in (see deliver); consumers do not write to
+// their input.
+var arena = make([]byte, 1<<20)
+
 // allocation bound: c x bytes delivered + K
 const allocC, allocK = 512, 4 << 20
 
@@ -469,12 +473,26 @@ func deliver(res *core.Result, tp *Tape, pname string, item int, d int, desc str
 	}
 	mark(pname, desc, repro, resume)
 	curSeq.Add(1)
+	// every second delivery arrives the way bytes read from a socket or a file often do: as the first
+	// len(b) bytes of a larger (here: zeroed) read buffer.  What lies behind the end of the input is
+	// not part of it.
+	inArena := d >= 0 && d%2 == 0 && len(b) <= len(arena)/2
+	if inArena {
+		copy(arena, b)
+		b = arena[:len(b)]
+		res.Faults["delivered-inside-a-larger-read-buffer"]++
+	}
 	inDelivery.Store(true)
 	a0 := allocated()
 	t0 := simrt.NowNs()
 	panicked, frame, msg := engine.Guard(func() { consume(b) })
 	a1 := allocated()
 	inDelivery.Store(false)
+	if inArena {
+		for i := range b {
+			b[i] = 0
+		}
+	}
 	res.Evals++
 	dd := deliveryDetail{Point: pname, Item: item, Mode: tp.Mode, Delivery: d, Damage: desc, Len: len(b), Repro: repro}
 	if panicked && strings.Contains(msg, floodPanic) {
